@@ -88,4 +88,16 @@ def c15(tier):
                 note="revisiontree.rs from MIR; harness h_tree::tree_stage")
 
 
-PROPS = {"C06": c06, "C16": c16, "C19": c19, "C05": c05, "C15": c15}
+def c03(tier):
+    combos = [(0, 1), (1, 1), (1, 2), (2, 1)] if tier == "quick" else [(0, 1), (1, 1), (1, 2), (1, 3), (2, 1), (2, 2), (3, 1)]
+    jobs = [Job("h_pack::pack_roundtrip", c, {"hash_order": "two"}, budget_s=3000, validate=40) for c in combos]
+    return dict(jobs=jobs,
+                bounds={"objects per pack": "0..%d" % max(c[0] for c in combos), "symbolic string length": "0..%d" % max(c[1] for c in combos),
+                        "string alphabet": "{ } [ ] , : \" \\ a (each byte symbolic); skeletons: flat object, symbolic key, nested object, array descriptor with non-ASCII literal, patch descriptor",
+                        "combos [objects, maxlen]": [list(c) for c in combos]},
+                assumptions=["kernel level: DataStorage::{write_raw_value, pack, reload, refresh, read_raw_value} over the real MemoryAdapter; the Melda-level commit/reopen is not yet covered",
+                             "floats are outside the claim"],
+                note="datastorage.rs + memoryadapter.rs from MIR; serde_json serialiser/parser modelled")
+
+
+PROPS = {"C03": c03, "C06": c06, "C16": c16, "C19": c19, "C05": c05, "C15": c15}
